@@ -80,6 +80,7 @@ type vOp struct {
 	vars   func() map[string]interface{}
 	known  string // known-finding class of this operation on the pinned tree ("" = expected to hold)
 	noNode bool   // operation uses the root `node` field (absent under the node-hiding merger)
+	known13 string // recorded C13 finding about the data of this operation ("" = none)
 	opName string
 }
 
@@ -112,6 +113,8 @@ func vReadmeOps() []vOp {
 		{q: `query($s: Boolean!) { me { name phone @skip(if: $s) } }`, known: "directive-var", vars: func() map[string]interface{} { return map[string]interface{}{"s": false} }},
 		{q: `{ node(id: "h1") { id } }`, noNode: true, known: "node-without-fragment"},
 		{q: `{ __typename me { phone } }`, known: "root-typename"},
+		// a depth-1 step answered for several entities, each with dependants on two other services
+		{q: `{ getHumans { pets { owner { name email } } } }`},
 		// client variables inside object and list literals that are themselves list elements
 		{q: `query($n: String, $l: String, $x: Int) { findHumans(filter: [{name: $n, tags: [{label: $l, weight: $x}]}], grid: [[1, $x], [$x]]) { name phone } }`, vars: func() map[string]interface{} {
 			return map[string]interface{}{"n": "nn", "l": "ll", "x": verifInt("var_x", 0, 9)}
@@ -310,6 +313,8 @@ func vAbstractOps() []vOp {
 		{q: `mutation { ping }`},
 		// one field twice under different aliases, on an interface whose implementations span two services
 		{q: `{ pets { ... on Cat { toy s: nick(short: true) l: nick(short: false) } ... on Dog { bone s: nick(short: true) } } }`},
+		// node lookup with several fragments, one of them id-only on a type that two services declare
+		{q: `{ node(id: "c1") { ... on Cat { name toy } ... on Dog { id } } }`, known13: "node-fragments-scrub-order"},
 		{q: `{ pets { name ... on Cat { toy lives } } }`, known: "abs-interface-field-plus-fragment"},
 		{q: `{ pets { id ... on Cat { toy } } }`, known: "abs-id-next-to-fragment"},
 		{q: `{ things { __typename ... on Cat { toy } } }`, known: "abs-typename-next-to-union-fragment"},
@@ -336,6 +341,37 @@ func VerifPipelineAbstract() {
 		vCheckOne(w, cfg, op, nil, []string{vSC1, vSC2})
 	}
 	verifReach("pipeline completed")
+}
+
+// ---- scenario 2b: member types whose names differ by case only ----
+
+const vSE1 = `
+interface Node { id: ID! }
+type Ebook implements Node { id: ID! title: String }
+type EBook implements Node { id: ID! title: String }
+union Item = Ebook | EBook
+type Query { node(id: ID!): Node items: [Item!]! }
+`
+const vSE2 = `
+interface Node { id: ID! }
+type Ebook implements Node { id: ID! pages: Int }
+type EBook implements Node { id: ID! size: Int }
+type Query { node(id: ID!): Node }
+`
+
+func vTwinsWorld() *vWorld {
+	w := &vWorld{ents: map[string]vEnt{}, roots: map[string]interface{}{}}
+	w.ents["e1"] = vEnt{"__typename": "Ebook", "id": "e1", "pages": verifInt("e1_pages", 0, 9)}
+	w.ents["f1"] = vEnt{"__typename": "EBook", "id": "f1"}
+	w.roots["Query.items"] = []vRef{{"Ebook", "e1"}, {"EBook", "f1"}}
+	return w
+}
+
+func vTwinsOps() []vOp {
+	return []vOp{
+		{q: `{ items { ... on Ebook { id title pages } ... on EBook { title size } } }`},
+		{q: `{ items { ... on Ebook { title pages } ... on EBook { id size } } }`},
+	}
 }
 
 // ---- scenario 3: deep object chains and snake_case paths (insertion-point slices with spare
